@@ -41,7 +41,7 @@ PfInit == [cps |-> <<0, <<1>> >>, latest |-> <<0, <<2, 3, 4, 5, 6, 7>> >>, bpr |
 MCInit ==
     /\ TLCSet(43, 0) /\ TLCSet(44, 0) /\ TLCSet(45, 0)
     /\ world = MCWorld
-    /\ cfg = [peers |-> {P}, lastN |-> 3, allow |-> AllowKF, interval |-> 100, maxOut |-> 1, liars |-> {}]
+    /\ cfg = [peers |-> {P}, lastN |-> 3, allow |-> AllowKF, interval |-> 100, maxOut |-> 1, liars |-> {}, msgTimeout |-> 2, refreshLag |-> 0]
     /\ now = 0 /\ peer = [p \in {P} |-> ReadyPeer]
     /\ tip = 7 /\ tipTD = 14 /\ lastN = << <<3, 4>>, <<4, 5>>, <<5, 6>> >>
     /\ out = NoOut
